@@ -8,6 +8,7 @@ package tree
 import (
 	"context"
 	"fmt"
+	"strings"
 	"testing"
 
 	"github.com/openconfig/ygot/ygot"
@@ -28,6 +29,10 @@ func vrvIf(name string, subs ...uint32) *sdcio_schema.SdcioModel_Interface {
 		i.Subinterface[s] = &sdcio_schema.SdcioModel_Interface_Subinterface{Index: ygot.Uint32(s), Type: sdcio_schema.SdcioModelCommon_SiType_routed}
 	}
 	return i
+}
+
+func vrvIfDescr(name, descr string) *sdcio_schema.SdcioModel_Interface {
+	return &sdcio_schema.SdcioModel_Interface{Name: ygot.String(name), Description: ygot.String(descr)}
 }
 
 func vrvRef(name, ifname string, sub uint32) *sdcio_schema.SdcioModel_NetworkInstance_Interface {
@@ -69,6 +74,11 @@ func TestVerifReplayValidation(t *testing.T) {
 		{"string within its length and pattern", &sdcio_schema.Device{Patterntest: ygot.String("hallo 12")}, true},
 		{"string shorter than its length range", &sdcio_schema.Device{Patterntest: ygot.String("hallo")}, false},
 		{"string outside its pattern", &sdcio_schema.Device{Patterntest: ygot.String("servus 12")}, false},
+		// the length statement counts characters, not the bytes of the encoding (RFC 7950, 9.4.4)
+		{"string length: 9 characters in 12 bytes, allowed are 7..10", &sdcio_schema.Device{Patterntest: ygot.String("hallo äöü")}, true},
+		{"string length: 200 characters in 400 bytes, allowed are 1..255", &sdcio_schema.Device{Interface: map[string]*sdcio_schema.SdcioModel_Interface{"ethernet-1/1": vrvIfDescr("ethernet-1/1", strings.Repeat("ä", 200))}}, true},
+		{"string length: 256 characters, allowed are 1..255", &sdcio_schema.Device{Interface: map[string]*sdcio_schema.SdcioModel_Interface{"ethernet-1/1": vrvIfDescr("ethernet-1/1", strings.Repeat("ä", 256))}}, false},
+		{"string length: 255 characters, allowed are 1..255", &sdcio_schema.Device{Interface: map[string]*sdcio_schema.SdcioModel_Interface{"ethernet-1/1": vrvIfDescr("ethernet-1/1", strings.Repeat("x", 255))}}, true},
 	}
 	n := 0
 	for _, sc := range scenarios {
@@ -129,7 +139,18 @@ func TestVerifReplayValidation(t *testing.T) {
 				res = root.Validate(ctx, &config.Validation{DisableConcurrency: true}).ErrorsStr()
 			}()
 			if (len(res) == 0) != sc.valid {
-				fmt.Printf("REPLAY-FAIL fn=%s clause=verdict_is_validity_of_the_result input=%s why=%d error(s) %v, the configuration is valid=%v\n", fn, in, len(res), res, sc.valid)
+				for i := range res {
+					if len(res[i]) > 160 {
+						res[i] = res[i][:160] + "..."
+					}
+				}
+				fns := []string{fn}
+				if strings.HasPrefix(sc.name, "string length") {
+					fns = append(fns, "(*tree.sharedEntryAttributes).validateLength")
+				}
+				for _, f := range fns {
+					fmt.Printf("REPLAY-FAIL fn=%s clause=verdict_is_validity_of_the_result input=%s why=%d error(s) %v, the configuration is valid=%v\n", f, in, len(res), res, sc.valid)
+				}
 			}
 		}
 	}
